@@ -252,6 +252,14 @@ elif what == "poison:broad":
         chk("FO", FO(scf, fods=fods))
         chk("FLO", FLO(scf, fods=fods))
         chk("orbital_center", tools.orbital_center(scf, psi[0]) if hasattr(tools, "orbital_center") else 0.0)
+        # open-shell system: fewer Fermi-orbital descriptors than states in the minority channel
+        li = Atoms("Li", [[0.0, 0.0, 0.0]], ecut=3, a=8, unrestricted=True)
+        sli = SCF(li, opt={"pccg": 3}, etol=1e-12)
+        sli.run()
+        nup = int(np.sum(np.asarray(sli.atoms.occ.f)[0, 0] > 0))
+        ndw = int(np.sum(np.asarray(sli.atoms.occ.f)[0, 1] > 0))
+        lf = [np.array([[0.1 + 0.7 * i, 0.2, 0.3] for i in range(nup)]), np.array([[0.2 + 0.6 * i, 0.1, 0.4] for i in range(ndw)])]
+        chk("FO open shell", FO(sli, fods=lf))
 
     def p_tools():
         at = Atoms("LiH", [[0, 0, 0], [0, 0, 3]], ecut=3, a=8).build()
@@ -357,19 +365,24 @@ elif what.startswith("seedonly:"):
         from eminus import dft
 
         f = getattr(dft, fn)
-        res = []
-        for pos, disturb in (([0, 0, 0], False), ([1.3, 0.4, 2.2], True), ([0, 0, 0], True)):
-            at = Atoms("He", pos, ecut=3, a=7, unrestricted=True)
-            scf = SCF(at)
-            if disturb:
-                np.random.seed(len(res) + 99)  # noqa: NPY002
-                np.random.rand(17)  # noqa: NPY002
-            w = f(scf, seed=11)
-            res.append(hashlib.sha1(np.concatenate([np.asarray(x).ravel() for x in w]).tobytes()).hexdigest())  # noqa: S324
-        w2 = f(scf, seed=12)
-        other = hashlib.sha1(np.concatenate([np.asarray(x).ravel() for x in w2]).tobytes()).hexdigest()  # noqa: S324
-        out["digests"] = res
-        out["differs"] = len(set(res)) != 1 or other == res[0]
+        differs = False
+        alld = {}
+        # every seed value is a seed: 0 and other "falsy" or large values included
+        for seed in (11, 0, 1, 2**40 + 3):
+            res = []
+            for pos, disturb in (([0, 0, 0], False), ([1.3, 0.4, 2.2], True), ([0, 0, 0], True)):
+                at = Atoms("He", pos, ecut=3, a=7, unrestricted=True)
+                scf = SCF(at)
+                if disturb:
+                    np.random.seed(len(res) + 99 + seed % 7)  # noqa: NPY002
+                    np.random.rand(17)  # noqa: NPY002
+                w = f(scf, seed=seed)
+                res.append(hashlib.sha1(np.concatenate([np.asarray(x).ravel() for x in w]).tobytes()).hexdigest())  # noqa: S324
+            alld[str(seed)] = res
+            differs = differs or len(set(res)) != 1
+        firsts = [v[0] for v in alld.values()]
+        out["digests"] = alld
+        out["differs"] = differs or len(set(firsts)) != len(firsts)
     elif fn == "get_wannier":
         from eminus.dft import guess_random
         from eminus.localizer import get_wannier
